@@ -633,6 +633,13 @@ func extractC07(c *Ctx) {
 	}
 	c.Check("zparser.go grammar = acc.peg grammar", len(diffs) == 0, strings.Join(diffs, "; "))
 	c.Expect("acc_grammar.txt", rulesText(pegRules))
+	// the grammar as an executable Lean table for the generic PEG interpreter
+	if lean, err := grammarLean(pegRules); err != nil {
+		c.Check("acc.peg grammar rendered for the generic interpreter", false, err.Error())
+	} else {
+		c.Check("acc.peg grammar rendered for the generic interpreter", true, "")
+		c.WriteGen("AccGrammar.lean", lean)
+	}
 
 	// ---- action code: acc.peg code blocks vs generated on… functions
 	var pegActs []struct{ rule, code string }
